@@ -266,6 +266,7 @@ type Explorer struct {
 	Points    int64
 	MaxPoints int
 	Stalls    int64
+	MaxStalls int64 // stop exploring after this many stalled executions (0: never); the caller reports the cap
 	Diverged  string
 	Stop      func() bool
 	stopped   bool
@@ -301,6 +302,9 @@ func (ex *Explorer) explore(prefix []int) {
 	}
 	if x.Stalled {
 		ex.Stalls++
+		if ex.MaxStalls > 0 && ex.Stalls >= ex.MaxStalls {
+			ex.stopped = true
+		}
 		return
 	}
 	if len(x.Points) < len(prefix) && x.Diverged == "" {
